@@ -30,6 +30,26 @@ theorem T3_3_concurrent_recovery_idempotent (L : LogParams MetaRec LogRec)
       absOfL P L img = absOfL P L d ∧ (img.wal = d.wal ∨ img.wal = none) :=
   conc_recovery_idempotent P L d w hw hs ct hord hcont
 
+/-- T3.3b the case without redo: the WAL of the crash image `d` is absent or stale, recovery only truncates it and cleans
+the rollback log outside the live range (`StaleAllowed`).  No order clause is needed: whatever the interleaving of these
+effects and of fsyncs, every image of every prefix abstracts to the state of `d`. -/
+theorem T3_3b_concurrent_recovery_idempotent_stale_wal (L : LogParams MetaRec LogRec)
+    (d : Disk Content MetaRec WalRec LogRec) (hstale : ∀ w, d.wal = some w → P.walSeqn w ≠ P.seqn d.mt)
+    (ct : List (CEv Content MetaRec WalRec LogRec)) (hall : ∀ e ∈ begun ct, StaleAllowed L d e) :
+    ∀ cp, cp <+: ct → ∀ img, IsCImage (crun (cinit d) cp) img →
+      absOfL P L img = absOfL P L d ∧ (img.wal = d.wal ∨ img.wal = none) :=
+  conc_recovery_idempotent_stale P L d hstale ct hall
+
+/-- non-vacuity of T3.3b: the old toy image with a stale WAL (sequence number 7 ≠ 1); the truncation and its fsync. -/
+example : ∀ cp, cp <+: [CEv.effBegin 0 (Eff.walSet none), .fsyncBegin "t1" .fWal, .effEnd 0, .fsyncEnd "t1" .fWal,
+      .fsyncBegin "t1" .fWal, .fsyncEnd "t1" .fWal] →
+    ∀ img, IsCImage (crun (cinit ({ Toy.d0 with wal := some (7, []) } : Toy.D)) cp) img →
+      absOfL Toy.P Toy.L img = absOfL Toy.P Toy.L ({ Toy.d0 with wal := some (7, []) } : Toy.D) :=
+  fun cp hcp img himg =>
+    (T3_3b_concurrent_recovery_idempotent_stale_wal Toy.P Toy.L _
+      (fun w hw => by injection hw with hw; subst hw; show (7 : Nat) ≠ 1; decide) _
+      (fun e he => by simp [begun] at he; subst he; trivial) cp hcp img himg).1
+
 /-- T3.4 **acceptance by the recovery monitor ⇒ the order discipline of phase 2**: if `checkRecoveryOrder` accepts the
 real trace of a recovery, then for every choice of contents and every start image the abstracted concurrent trace
 passes `ordChk` from phase 2 (hypothesis `hord` of T3.3), and what is left volatile is what the monitor reports. -/
